@@ -226,6 +226,8 @@ class NpRandomStub:
     def choice(self, a, size=None, replace=True, p=None):
         ctx = self.ctx
         a = list(range(a)) if isinstance(a, int) else list(a)
+        if isinstance(size, (tuple, list)):
+            raise HarnessError("np.random.choice with a shape tuple is not modelled")
         n = 1 if size is None else int(size)
         if p is None:
             p = [RealFraction(1, len(a))] * len(a)
@@ -260,6 +262,11 @@ class NpRandomStub:
     def uniform(self, low=0.0, high=1.0, size=None):
         if size is None:
             return SymUniform(self.ctx, low, high)
+        if isinstance(size, (tuple, list)):
+            n = 1
+            for d in size:
+                n *= int(d)
+            return NpList([SymUniform(self.ctx, low, high) for _ in range(n)]).reshape(tuple(int(d) for d in size))
         return NpList([SymUniform(self.ctx, low, high) for _ in range(int(size))])
 
     def random(self, size=None):
@@ -270,10 +277,108 @@ class NpRandomStub:
 
 
 class NpList(list):
-    """list with the two ndarray conveniences the generators use on np.random results"""
+    """what np.random.* returns under the stubs: a list of (proxy) numbers with the ndarray conveniences code
+    commonly uses on such results (reshape/shape/tolist/flatten/astype, element-wise arithmetic, sums).  Anything
+    else that only an ndarray has ends the path as a harness limitation (inconclusive), never as a library error."""
 
     def tolist(self):
-        return list(self)
+        return [x.tolist() if isinstance(x, NpList) else x for x in self]
+
+    @property
+    def shape(self):
+        if self and isinstance(self[0], NpList):
+            return (len(self),) + self[0].shape
+        return (len(self),)
+
+    @property
+    def ndim(self):
+        return len(self.shape)
+
+    @property
+    def size(self):
+        n = 1
+        for d in self.shape:
+            n *= d
+        return n
+
+    def flatten(self):
+        out = NpList()
+        for x in self:
+            if isinstance(x, NpList):
+                out.extend(x.flatten())
+            else:
+                out.append(x)
+        return out
+
+    ravel = flatten
+
+    def reshape(self, *shape):
+        if len(shape) == 1 and isinstance(shape[0], (tuple, list)):
+            shape = tuple(shape[0])
+        flat = self.flatten()
+        shape = [int(d) for d in shape]
+        if shape.count(-1) > 1:
+            raise ValueError("can only specify one unknown dimension")
+        if -1 in shape:
+            known = 1
+            for d in shape:
+                if d != -1:
+                    known *= d
+            if known == 0 or len(flat) % known:
+                raise ValueError(f"cannot reshape array of size {len(flat)} into shape {tuple(shape)}")
+            shape[shape.index(-1)] = len(flat) // known
+        total = 1
+        for d in shape:
+            total *= d
+        if total != len(flat):
+            raise ValueError(f"cannot reshape array of size {len(flat)} into shape {tuple(shape)}")
+
+        def build(items, dims):
+            if len(dims) == 1:
+                return NpList(items)
+            step = len(items) // dims[0] if dims[0] else 0
+            return NpList(build(items[i * step:(i + 1) * step], dims[1:]) for i in range(dims[0]))
+        return build(list(flat), shape)
+
+    def astype(self, *a, **k):
+        return NpList(self)
+
+    def copy(self):
+        return NpList(self)
+
+    def sum(self, *a, **k):
+        if a or k:
+            raise core.HarnessError("NpList.sum with axis/arguments is not modelled")
+        return core.add(*self.flatten()) if self else 0
+
+    def __getitem__(self, i):
+        if isinstance(i, tuple):
+            if len(i) == 2 and all(isinstance(j, int) for j in i):
+                return list.__getitem__(self, i[0])[i[1]]
+            raise core.HarnessError("NpList fancy indexing is not modelled")
+        r = list.__getitem__(self, i)
+        return NpList(r) if isinstance(i, slice) else r
+
+    def _ew(self, other, op):
+        if isinstance(other, (list, tuple)):
+            if len(other) != len(self):
+                raise ValueError("operands could not be broadcast together")
+            return NpList(a._ew(b, op) if isinstance(a, NpList) else op(a, b) for a, b in zip(self, other))
+        return NpList(a._ew(other, op) if isinstance(a, NpList) else op(a, other) for a in self)
+
+    def __add__(self, o): return self._ew(o, core.add)
+    def __radd__(self, o): return self._ew(o, lambda a, b: core.add(b, a))
+    def __sub__(self, o): return self._ew(o, core.sub)
+    def __rsub__(self, o): return self._ew(o, lambda a, b: core.sub(b, a))
+    def __mul__(self, o): return self._ew(o, core.mul)
+    def __rmul__(self, o): return self._ew(o, lambda a, b: core.mul(b, a))
+    def __truediv__(self, o): return self._ew(o, core.div)
+    def __rtruediv__(self, o): return self._ew(o, lambda a, b: core.div(b, a))
+
+    def __getattr__(self, k):
+        if k.startswith("__"):
+            raise AttributeError(k)
+        raise core.HarnessError(f"ndarray attribute .{k} is not modelled by the np.random stub")
 
 
 class NpStub:
